@@ -231,7 +231,12 @@ pub fn compare(w: &World, chain: &Chain, upto: u64, reg: &Reg) -> Result<(), Mis
         let idx: u32 = parts.next().unwrap().parse().unwrap();
         let op = chain.cells.iter().find(|(op, _)| format!("{:#x}", op.tx_hash()) == txh && Unpack::<u32>::unpack(&op.index()) == idx);
         match op {
-            None => return Err(Mismatch { kind: "phantom-cell-not-on-chain", detail: format!("{} {}", key, c) }),
+            None => {
+                // D26: a cell whose recorded creation block is not after the script's start can only have been put there by a
+                // rollback (restore of a spent cell), not by indexing
+                let kind = if hex_u64(&c["block_number"]) <= reg.start && reg.start > 0 { "phantom-cell-not-on-chain/creation-block-before-script-start" } else { "phantom-cell-not-on-chain" };
+                return Err(Mismatch { kind, detail: format!("{} {}", key, c) });
+            }
             Some((_, ci)) => {
                 if ci.block > upto {
                     return Err(Mismatch { kind: "cell-from-the-future", detail: format!("{} created in {} > {}", key, ci.block, upto) });
@@ -239,7 +244,12 @@ pub fn compare(w: &World, chain: &Chain, upto: u64, reg: &Reg) -> Result<(), Mis
                 if reg.in_range(ci.block) {
                     if let Some((b, _, _)) = ci.spent_at {
                         if b <= upto {
-                            return Err(Mismatch { kind: "spent-cell-returned", detail: format!("{} created in {} (tx_index {}) spent in {} (script start {}, height {}); returned as block {} tx_index {}", key, ci.block, ci.tx_index, b, reg.start, upto, c["block_number"], c["tx_index"]) });
+                            let kind = if hex_u64(&c["block_number"]) <= reg.start && hex_u64(&c["block_number"]) != ci.block && reg.start > 0 {
+                                "spent-cell-returned/stale-creation-block-before-script-start"
+                            } else {
+                                "spent-cell-returned"
+                            };
+                            return Err(Mismatch { kind, detail: format!("{} created in {} (tx_index {}) spent in {} (script start {}, height {}); returned as block {} tx_index {}", key, ci.block, ci.tx_index, b, reg.start, upto, c["block_number"], c["tx_index"]) });
                         }
                     }
                 }
@@ -249,7 +259,7 @@ pub fn compare(w: &World, chain: &Chain, upto: u64, reg: &Reg) -> Result<(), Mis
     // history
     let txs = all_txs(w, reg, 50).map_err(|e| Mismatch { kind: "rpc-error", detail: e })?;
     let mut got_hist: BTreeSet<HistEntry> = BTreeSet::new();
-    let mut prefix_hist: BTreeMap<HistEntry, ()> = BTreeMap::new();
+    let mut prefix_hist: BTreeMap<HistEntry, &Value> = BTreeMap::new();
     for t in &txs {
         let e = HistEntry {
             block: hex_u64(&t["block_number"]),
@@ -258,7 +268,7 @@ pub fn compare(w: &World, chain: &Chain, upto: u64, reg: &Reg) -> Result<(), Mis
             is_input: t["io_type"] == "input",
             tx_hash: t["transaction"]["hash"].as_str().unwrap_or("").to_string(),
         };
-        prefix_hist.insert(e.clone(), ());
+        prefix_hist.insert(e.clone(), t);
         got_hist.insert(e);
     }
     for e in &r.must_history {
@@ -274,6 +284,14 @@ pub fn compare(w: &World, chain: &Chain, upto: u64, reg: &Reg) -> Result<(), Mis
         }
         // the entry may belong to another script sharing the search prefix: it must then be a real fact for *some* script with that prefix
         if !entry_is_real_for_prefix(chain, upto, reg, e) {
+            // scoping S1: the records of a script that is not registered (any more) are not maintained, neither
+            // by new blocks nor by a rollback; a prefix search returns them as they were left
+            if let Some(owner) = owner_script(w, reg, prefix_hist[e]) {
+                let registered = w.storage().get_filter_scripts().into_iter().any(|ss| ss.script == owner && matches!(ss.script_type, crate::storage::ScriptType::Type) == (reg.stype == SType::Type));
+                if owner != reg.script && !registered {
+                    continue;
+                }
+            }
             return Err(Mismatch { kind: "history-entry-not-on-chain", detail: format!("{:?} (height {})", e, upto) });
         }
     }
@@ -289,6 +307,24 @@ pub fn compare(w: &World, chain: &Chain, upto: u64, reg: &Reg) -> Result<(), Mis
         return Err(Mismatch { kind: "capacity-tip-differs", detail: format!("{}", cap_v) });
     }
     Ok(())
+}
+
+/// The exact script a returned history entry belongs to, derived from the returned transaction (outputs) or,
+/// for inputs, from the previous output on any chain of the world.
+fn owner_script(w: &World, reg: &Reg, t: &Value) -> Option<Script> {
+    let io = hex_u64(&t["io_index"]) as usize;
+    let tx: ckb_jsonrpc_types::TransactionView = serde_json::from_value(t["transaction"].clone()).ok()?;
+    let tx: packed::Transaction = tx.inner.into();
+    let out = if t["io_type"] == "input" {
+        let op = tx.raw().inputs().get(io)?.previous_output();
+        w.chains.iter().find_map(|c| c.cells.get(&op).map(|ci| ci.output.clone()))?
+    } else {
+        tx.raw().outputs().get(io)?
+    };
+    match reg.stype {
+        SType::Lock => Some(out.lock()),
+        SType::Type => out.type_().to_opt(),
+    }
 }
 
 fn entry_is_real_for_prefix(chain: &Chain, upto: u64, reg: &Reg, e: &HistEntry) -> bool {
